@@ -7,6 +7,7 @@ C19 — Control paragraph is a case-insensitive mapping; typed fields are faithf
 -/
 import DebInspector.Props.Common
 import DebInspector.Model.Control
+import DebInspector.Model.Addr
 
 namespace Props.C19
 open Proto Py Model.Control
@@ -135,9 +136,12 @@ def wfM (i : InputM) : Bool :=
 
 abbrev ObsM := Option (Str × Option Str × Str)   -- name, email_address, dumps()
 
-/-- the model covers exactly the grammar above; elsewhere `email.utils.parseaddr` is not modelled -/
+/-- `MaintainerField.from_value("name <address>")` through the model of `email.utils.parseaddr`; `none` = outside
+the model (an address group) -/
 def modelM (i : InputM) : ObsM :=
-  if wfM i then some (i.name, some i.address, i.name ++ " <".toList ++ i.address ++ ['>']) else none
+  match Model.Addr.maintainer (i.name ++ " <".toList ++ i.address ++ ['>']) with
+  | .ok r => some r
+  | .error _ => none
 
 def holdsOnM (i : InputM) (o : ObsM) : Bool :=
   !wfM i || o == some (i.name, some i.address, i.name ++ " <".toList ++ i.address ++ ['>'])
